@@ -170,6 +170,18 @@ def build_item(spec: dict, sections: dict, substs: list, defines: set, log: list
         head += vis + ' '
         applied.append(f'R7 {where}: visibility -> {vis}')
 
+    # R7: restricted visibility `pub(super)` / `pub(crate)` -> `pub` (single-file crate)
+    if toks[it.first_tok].text == 'pub' and toks[it.first_tok + 1].text == '(':
+        c = rsx.match_close(toks, it.first_tok + 1)
+        edits.append(Edit(toks[it.first_tok].start, toks[c].end, 'pub', 'R7'))
+        applied.append(f'R7 {where}: {src[toks[it.first_tok].start:toks[c].end]} -> pub')
+    # R1: `#[default]` on an enum variant goes with the stripped `Default` derive
+    if kind == 'enum' and it.open_tok is not None:
+        for j in range(it.open_tok, it.close_tok):
+            if toks[j].text == '#' and toks[j + 1].text == '[' and toks[j + 2].text == 'default' and toks[j + 3].text == ']':
+                edits.append(Edit(toks[j].start, toks[j + 3].end, '', 'R1'))
+                applied.append(f'R1 {relfile}:{it.line_of(toks[j].start)}: variant attribute #[default] dropped')
+
     if kind == 'fn':
         if it.open_tok is None:
             raise LostAnchor(f'{where}: fn without body')
